@@ -2,6 +2,7 @@ package main
 
 import (
 	"sync"
+	"golang.org/x/tools/go/ssa"
 	"encoding/json"
 	"flag"
 	"fmt"
@@ -23,6 +24,7 @@ func main() {
 	list := flag.Bool("list", false, "list functions and exit")
 	verbose := flag.Bool("v", false, "print every obligation")
 	allFuncs := flag.Bool("all", false, "also verify inlinable unexported functions as roots")
+	noReplay := flag.Bool("noreplay", false, "do not replay counterexamples on the real code")
 	frame := flag.Bool("frame", false, "run the frame analysis (C14) instead of the contract verification")
 	flag.Parse()
 
@@ -51,6 +53,7 @@ func main() {
 	}
 	var results []*FuncResult
 	var obs []*Obligation
+	fnOf := map[string]*ssa.Function{}
 	if *frame {
 		results = append(results, e.frameCheck())
 	}
@@ -79,6 +82,7 @@ func main() {
 			fmt.Fprintf(os.Stderr, "gen %-40s %.1fs\n", name, d)
 		}
 		results = append(results, r)
+		fnOf[r.Func] = f
 		obs = append(obs, r.Obligations...)
 	}
 	if *list {
@@ -119,6 +123,26 @@ func main() {
 			}
 		}
 	}
+	// replay the solver's counterexamples against the real code
+	if !*noReplay {
+		var wg sync.WaitGroup
+		sem := make(chan struct{}, 4)
+		for _, ob := range obs {
+			if ob.Status != "failed" || fnOf[ob.Func] == nil {
+				continue
+			}
+			ob := ob
+			wg.Add(1)
+			go func() {
+				defer wg.Done()
+				sem <- struct{}{}
+				defer func() { <-sem }()
+				defer func() { recover() }()
+				ob.Replay = e.replay(fnOf[ob.Func], ob, dir, e.overlay)
+			}()
+		}
+		wg.Wait()
+	}
 	for _, r := range results {
 		if len(r.Unsupported) > 0 {
 			fmt.Printf("OUTSIDE-SUBSET %s\n", r.Func)
@@ -136,6 +160,9 @@ func main() {
 			}
 			if *verbose || ob.Status != "proved" {
 				fmt.Printf("  %-8s %-70s %s %.2fs [%s] %s\n", ob.Status, ob.Name, ob.Solver, ob.Time, ob.Pos, ob.Info)
+				if ob.Replay != nil {
+					fmt.Printf("           replay: %s %s  inputs: %s\n", ob.Replay.Outcome, ob.Replay.Detail, strings.Join(ob.Replay.Inputs, "; "))
+				}
 			}
 		}
 		fmt.Printf("%-40s obligations=%d proved=%d other=%d\n", r.Func, len(r.Obligations), np, nf)
